@@ -4,7 +4,7 @@ from ..fdai import EnumV, AggV, K, SymV, RefV, Cell, Loc, TOP, load
 from . import dispatch as D, convert as C
 
 LEVEL = "other"
-TECHNIQUE = "FDAI accept-list matrix of every TryFrom<Token> impl (scpi and scpi-contrib) x 13 token variants compared with the documented accept lists; delegation check of the float conversions (whole literal to lexical_core::parse::<target>, no float-to-float cast); keyword tables by folding the conversion on texts around every keyword - both forms in several letter cases, near misses, numeric suffixes, partial long forms - (literal -> constant, bit-exact) via mnemonic_compare guards; boolean table; a literal the float parser accepted is never refused afterwards; the integer conversion the boolean one delegates to is evaluated with C07's rules"
+TECHNIQUE = "FDAI accept-list matrix of every TryFrom<Token> impl (scpi and scpi-contrib) x 13 token variants compared with the documented accept lists; delegation check of the float conversions (whole literal to lexical_core::parse::<target>, no float-to-float cast); keyword tables by folding the conversion on texts around every keyword - both forms in several letter cases, near misses, numeric suffixes, partial long forms - (literal -> constant, bit-exact) via mnemonic_compare guards; boolean table; a literal the float parser accepted is never refused afterwards; the integer conversion the boolean one delegates to is evaluated with C07's rules; typed echo tables (sa/rules/echotable.py, witness/echo): `Node::run` folded end to end on messages to a witness command that pulls one parameter of the type (`next_data::<T>()` / `next_optional_data`) and writes it back - lexer, dispatcher, Parameters, the conversion, the ResponseData writer and the formatter analysed in place, lexical-core's parsers / integer writer by contract - the answer compared with a reference written from the property's statement: f32 / f64 (answered as bit patterns) on literals around the largest, smallest and halfway values, negative zero, overflow, keywords and look-alikes; booleans in every spelling incl. numbers beyond every integer; every other element type refused"
 LEVEL_TEXT = "For every (target type, element type) pair the abstract interpreter enumerates all outcomes of the conversion (Ok, each error code, internal-unreachable) and the matrix is compared with the documented accept lists; the float conversions are checked to hand the whole literal to the correctly-rounding parser instantiated at the target width; the keyword and boolean tables are extracted with their constants and compared bit for bit."
 LEVEL_NOTE = "Not decided: correct rounding of decimal->binary inside lexical-core (trusted); which spellings the lexer lets through (C04). The numeric part of `bool` rests on the integer conversion (C07). Trusted: rustc MIR, FDAI models."
 
